@@ -10,39 +10,38 @@ IVarsOut == <<"X", "Y", "Z", "pid">>
 PVarsOf(fv) == IF ~fv.pvars THEN <<>> ELSE IF fv.extracol THEN <<"farmid", "release_time">> ELSE <<"release_time">>
 Names(fv) == <<"mult", "release_time", "X", "Y", "Z">> \o (IF fv.extracol THEN <<"farmid">> ELSE <<>>)
 StatePVars(fv) == IF fv.extracol THEN <<"farmid", "release_time">> ELSE <<"release_time">>
-ForcingName(fv) == IF fv.wildcard THEN "f_*.nc" ELSE "f_00.nc"
+ForcingName(fv, First) == IF fv.wildcard THEN "f_*.nc" ELSE First
 
-Canon(fv) == [ gridfile |-> "f_00.nc",                               \* explicit, or the (first) forcing file
-               subgrid |-> fv.subgrid, forcing |-> ForcingName(fv), adv |-> fv.adv, diffusion |-> fv.diffusion,
+Canon(fv, First) == [ gridfile |-> First,                               \* explicit, or the (first) forcing file
+               subgrid |-> fv.subgrid, forcing |-> ForcingName(fv, First), adv |-> fv.adv, diffusion |-> fv.diffusion,
                cont |-> fv.cont, freq |-> IF fv.cont THEN fv.freq ELSE 0, names |-> Names(fv),
                state_pvars |-> StatePVars(fv), out_ivars |-> IVarsOut, out_pvars |-> PVarsOf(fv) ]
 
 \* ---- version 2 documents (YAML and TOML carry the same tree) -------------------------------------------------
-RenderV2(fv) ==
+RenderV2(fv, First) ==
    [ has_grid |-> fv.gridsec # "omitted",
-     grid |-> [has_file |-> fv.gridsec = "explicit", file |-> "f_00.nc", subgrid |-> fv.subgrid /\ fv.gridsec # "omitted"],
-     forcing |-> [file |-> ForcingName(fv)],
+     grid |-> [has_file |-> fv.gridsec = "explicit", file |-> First, subgrid |-> fv.subgrid /\ fv.gridsec # "omitted"],
+     forcing |-> [file |-> ForcingName(fv, First)],
      tracker |-> [adv |-> fv.adv, diffusion |-> fv.diffusion],
      release |-> [cont |-> fv.cont, freq |-> fv.freq, names |-> Names(fv)],
      state |-> [pvars |-> StatePVars(fv)],
      optional |-> fv.optsec,                                                     \* ibm / warm_start sections: present-empty or omitted
      output |-> [ivars |-> IVarsOut, pvars |-> PVarsOf(fv)] ]
-FirstMatch(pattern) == "f_00.nc"                                                 \* sorted glob, first file
-MeanV2(d) ==
-   [ gridfile |-> IF d.has_grid /\ d.grid.has_file THEN d.grid.file ELSE FirstMatch(d.forcing.file),
+MeanV2(d, First) ==          \* First = the first forcing file in name order (sorted glob)
+   [ gridfile |-> IF d.has_grid /\ d.grid.has_file THEN d.grid.file ELSE First,
      subgrid |-> d.has_grid /\ d.grid.subgrid, forcing |-> d.forcing.file, adv |-> d.tracker.adv, diffusion |-> d.tracker.diffusion,
      cont |-> d.release.cont, freq |-> IF d.release.cont THEN d.release.freq ELSE 0, names |-> d.release.names,
      state_pvars |-> d.state.pvars, out_ivars |-> d.output.ivars, out_pvars |-> d.output.pvars ]
 
 \* ---- version 1 document and its translation -------------------------------------------------------------------
-RenderV1(fv) ==
-   [ gridforce |-> [input_file |-> ForcingName(fv), has_gridfile |-> fv.gridsec = "explicit", gridfile |-> "f_00.nc", subgrid |-> fv.subgrid /\ fv.gridsec # "omitted"],
+RenderV1(fv, First) ==
+   [ gridforce |-> [input_file |-> ForcingName(fv, First), has_gridfile |-> fv.gridsec = "explicit", gridfile |-> First, subgrid |-> fv.subgrid /\ fv.gridsec # "omitted"],
      numerics |-> [adv |-> fv.adv, diffusion |-> fv.diffusion],
      particle_release |-> [variables |-> Names(fv), continuous |-> fv.cont, freq |-> fv.freq, particle_variables |-> StatePVars(fv)],
      has_ibm |-> fv.optsec = "present",
      output_variables |-> [instance |-> IVarsOut, particle |-> PVarsOf(fv)] ]
-MeanV1(d) ==
-   [ gridfile |-> IF d.gridforce.has_gridfile THEN d.gridforce.gridfile ELSE FirstMatch(d.gridforce.input_file),
+MeanV1(d, First) ==
+   [ gridfile |-> IF d.gridforce.has_gridfile THEN d.gridforce.gridfile ELSE First,
      subgrid |-> d.gridforce.subgrid, forcing |-> d.gridforce.input_file, adv |-> d.numerics.adv, diffusion |-> d.numerics.diffusion,
      cont |-> d.particle_release.continuous, freq |-> IF d.particle_release.continuous THEN d.particle_release.freq ELSE 0,
      names |-> d.particle_release.variables, state_pvars |-> d.particle_release.particle_variables,
